@@ -15,6 +15,10 @@ Case kinds (field 'kind'):
           fragmenting wsgi.input (props.common.FragStream, schedule 'sched') under Content-Length or chunked
           framing ('data' = the bytes on the wire), with max_memfile_size 'buf' / max_body_size 'maxb' around
           the body size; Ombott.__call__ runs a handler that reads request.forms
+  modes   parse_qsl's other two modes: append=acc.append on a non-empty list and setitem=d.__setitem__ on a
+          non-empty dict (also both keywords at once: setitem wins)
+  reuse   ONE Ombott application serving several requests in a row (query / forms / params of each)
+  cachein helpers.cache_in on a toy class: both storage forms, read_only, failing getter; get / set / del
   prim    primitive-level comparison of lib/Utf8.v and lib/Pct.v with str.encode / bytes.decode /
           urllib.parse (field 'op')
 Strings are lists of code points everywhere (JSON-able even with lone surrogates)."""
@@ -164,18 +168,34 @@ def frame_corpus():
     return out
 
 
-def seq_ops(qpairs, bpairs, ops, spelling='plus'):
+def seq_ops(qpairs, bpairs, ops, spelling='plus', ct='application/x-www-form-urlencoded', ro=False):
     """ops: ('read', a) | ('set_qs', pairs) | ('set_body', pairs[, cl_first])"""
     conv = lambda ps: [[S(k), S(v)] for k, v in ps]
     out = []
     for o in ops:
-        if o[0] in ('read', 'read_body'):
-            out.append([o[0], o[1]])
+        if o[0] in ('read', 'read_body', 'copy', 'set_ctype'):
+            out.append([o[0], o[1] if o[0] != 'set_ctype' else S(o[1])])
+        elif o[0] == 'attr':
+            out.append(['attr', o[1], S(o[2])])
+        elif o[0] in ('del_qs',):
+            out.append(['del_qs'])
+        elif o[0] == 'set_other':
+            out.append(['set_other', o[1], o[2]])
         elif o[0] == 'set_qs':
             out.append(['set_qs', S(pairs_text(conv(o[1]), spelling).decode('ascii')), conv(o[1])])
         else:
             out.append(['set_body', list(pairs_text(conv(o[1]), spelling)), conv(o[1]), int(bool(o[2:] and o[2]))])
-    return dict(kind='seq', qpairs=conv(qpairs), bpairs=conv(bpairs), spelling=spelling, ops=out)
+    return dict(kind='seq', qpairs=conv(qpairs), bpairs=conv(bpairs), spelling=spelling, ops=out, ct=ct, ro=ro)
+
+
+# content types that select the urlencoded parser (missing = None) and some that select another one
+CT_URLENC = [None, '', 'application/x-www-form-urlencoded', 'APPLICATION/X-WWW-FORM-URLENCODED; Charset=UTF-8',
+             'application/x-www-form-urlencoded;charset=latin1', 'text/plain', 'TEXT/PLAIN; charset=x', ' multipart/x',
+             'x-multipart/form-data', 'application/x-json', 'application/jso', 'multipart', 'application/octet-stream',
+             '\xe9/\xc9']
+CT_OTHER = ['multipart/form-data', 'Multipart/Mixed', 'MULTIPART/', 'application/json', 'Application/JSON; charset=utf-8',
+            'application/json-patch+json']
+DICT_ATTRS = set(dir(dict)) | {'copy'}
 
 
 ORDERS = [['params', 'query'], ['query', 'params', 'query'], ['forms', 'params', 'query', 'forms'],
@@ -220,6 +240,20 @@ def corpus():
                 [('read', 'params'), ('set_body', [('y', '2')], 1), ('read', 'params'), ('read', 'forms'),
                  ('set_qs', []), ('read', 'query'), ('read', 'params')]),
         seq_ops([('a', '1')], [('x', '1')], [('set_qs', [('b', '2')]), ('set_body', [('y', '2')]), ('read', 'params')]),
+        # copy() and attribute access of the FormsDict, deletion, other keys, content types, read-only environ
+        seq_ops([('a', '1'), ('b', '2'), ('a', '3')], [('x', '1'), ('b', '9')],
+                [('copy', 'query'), ('read', 'query'), ('attr', 'query', 'a'), ('attr', 'query', 'nope'),
+                 ('copy', 'params'), ('attr', 'params', 'b'), ('read', 'params'), ('del_qs',), ('read', 'query'),
+                 ('read', 'params'), ('set_other', 'HTTP_X_FOO', '1'), ('set_other', 'x.y', 'z'), ('read', 'forms')]),
+        seq_ops([('a', '1')], [('x', '1')],
+                [('read', 'forms'), ('set_ctype', 'application/json'), ('read', 'forms'), ('read', 'query'),
+                 ('read', 'params'), ('set_ctype', 'TEXT/PLAIN; charset=x'), ('read', 'forms'), ('read', 'params'),
+                 ('set_ctype', 'multipart/form-data'), ('read', 'params')], ct=None),
+        seq_ops([('a', '1')], [('x', '1')],
+                [('read', 'query'), ('set_qs', [('b', '2')]), ('del_qs',), ('set_body', [('y', '2')]),
+                 ('set_ctype', 'application/json'), ('set_other', 'HTTP_X', '1'), ('read', 'query'), ('read', 'params')],
+                ro=True),
+        seq_ops([('a', '1')], [('x', '1')], [('read', 'params')], ct='APPLICATION/X-WWW-FORM-URLENCODED; Charset=UTF-8'),
         # the raw body is read first (signature check, logging hook), then the forms (seeded edit: _get_body_string
         # without its rewind parses only the unread tail)
         seq_ops([], [('k y', 'v+1'), ('na=me', 'Zoë & co'), ('p%', '100%'), ('k y', '中文')],
@@ -346,10 +380,31 @@ def gen_seq_ops(rng):
             return list(pairs_text(ps, spelling)), ps
         return [x for x in rand_raw(rng) if x < 256], None
     ops = []
-    for _ in range(rng.randrange(3, 9)):
+    other_ok = by_pairs and rng.random() < 0.3        # other parsers only where they certainly refuse the body
+    if other_ok:
+        def some_pairs():                             # noqa: F811  (non-empty bodies: 'k=v' is never valid JSON)
+            return [[list(rng.choice(pool)), rand_text(rng, 0, 4)] for _ in range(rng.randrange(1, 4))]
+    names = [k for k in pool if T(k) not in DICT_ATTRS and not (T(k).startswith('__') and T(k).endswith('__'))
+             and all(c < 0xD800 or c > 0xDFFF for c in k)] or [S('k')]
+    for _ in range(rng.randrange(3, 10)):
         r = rng.random()
-        if r < 0.5:
+        if r < 0.1:
+            ops.append(['copy', rng.choice(['query', 'forms', 'params'])])
+        elif r < 0.2:
+            ops.append(['attr', rng.choice(['query', 'forms', 'params']),
+                        list(rng.choice(names)) if rng.random() < 0.8 else S('missing_name')])
+        elif r < 0.25:
+            ops.append(['del_qs'])
+        elif r < 0.3:
+            ops.append(['set_other'] + rng.choice([['HTTP_X_FOO', '1'], ['x.y', 'z'], ['REQUEST_METHOD', 'PUT'],
+                                                   ['HTTP_COOKIE', 'a=1']]))
+        elif r < 0.38:
+            ct = rng.choice(CT_URLENC[1:] + (CT_OTHER * 2 if other_ok else []))
+            ops.append(['set_ctype', S(ct)])
+        elif r < 0.5:
             ops.append(['read', rng.choice(['query', 'forms', 'forms', 'params', 'params'])])
+        elif r < 0.55:
+            ops.append(['read', 'params'])
         elif r < 0.65:
             ops.append(['set_qs'] + list(new_qs()))
         elif r < 0.8:
@@ -357,9 +412,11 @@ def gen_seq_ops(rng):
         else:
             ops.append(['read_body', rng.choice([-1, -1, 0, 1, 2, 3, 5, 10, 1000])])
     ops.append(['read', rng.choice(['query', 'forms', 'params'])])
+    ct = rng.choice(CT_URLENC + (CT_OTHER if other_ok else []))
+    ro = rng.random() < 0.1
     if by_pairs:
-        return dict(kind='seq', spelling=spelling, qpairs=some_pairs(), bpairs=some_pairs(), ops=ops)
-    return dict(kind='seq', qs=rand_raw(rng), body=[x for x in rand_raw(rng) if x < 256], ops=ops)
+        return dict(kind='seq', spelling=spelling, qpairs=some_pairs(), bpairs=some_pairs(), ops=ops, ct=ct, ro=ro)
+    return dict(kind='seq', qs=rand_raw(rng), body=[x for x in rand_raw(rng) if x < 256], ops=ops, ct=ct, ro=ro)
 
 
 def gen(rng, n):
@@ -547,36 +604,118 @@ def seq_request(qs, body):
     return Request(env)
 
 
-def fresh_read(qs, body, a):
-    return dump_dict(getattr(seq_request(qs, body), a))
+def py_selects_urlencoded(ct):
+    """harness-side statement of which content types go to the urlencoded parser"""
+    low = (ct or '').lower()
+    return not (low.startswith('multipart/') or low.startswith('application/json'))
+
+
+def seq_request2(qs, body, ct, ro=False):
+    from ombott import Request
+    env = environ('POST', '/', QUERY_STRING=qs)
+    env['wsgi.input'] = io.BytesIO(body)
+    env['CONTENT_LENGTH'] = str(len(body))
+    if ct is not None:
+        env['CONTENT_TYPE'] = ct
+    if ro:
+        env['ombott.request.readonly'] = True
+    return Request(env)
+
+
+def view_dump(rq, a):
+    """the view, or 'other' when another body parser refused the urlencoded text"""
+    from ombott.request_pkg.errors import RequestError
+    from ombott import HTTPError
+    try:
+        return dump_dict(getattr(rq, a)), getattr(rq, a)
+    except (RequestError, HTTPError):
+        return 'other', None
 
 
 def run_seq_ops(case):
     qs, body = seq_strings(case)
-    reads, fresh, raw = [], [], []
+    ct, ro = case.get('ct', 'application/x-www-form-urlencoded'), bool(case.get('ro'))
+    reads, fresh, raw, notes = [], [], [], []
+    refused = set()
     try:
-        rq = seq_request(qs, body)
+        rq = seq_request2(qs, body, ct, ro)
+
+        def assign(key, value, delete=False):
+            """-> True when the assignment took place (KeyError on a read-only environ)"""
+            try:
+                if delete:
+                    del rq[key]
+                else:
+                    rq[key] = value
+            except KeyError:
+                notes.append('keyerror' if ro else 'unexpected KeyError for %s' % key)
+                return False
+            if ro:
+                notes.append('assignment to %s accepted on a read-only environ' % key)
+            return True
         for o in case['ops']:
-            if o[0] == 'read_body':
+            k = o[0]
+            if k == 'read_body':
                 got = rq.body.read() if o[1] < 0 else rq.body.read(o[1])
                 raw.append([list(got), list(body if o[1] < 0 else body[:o[1]])])
-            elif o[0] == 'read':
-                reads.append([o[1], dump_dict(getattr(rq, o[1]))])
-                fresh.append(fresh_read(qs, body, o[1]))         # a request that carries the current strings
-            elif o[0] == 'set_qs':
-                qs = T(o[1])
-                rq['QUERY_STRING'] = qs
-            else:
-                body = bytes(o[1])
+            elif k in ('read', 'copy', 'attr'):
+                d, obj = view_dump(rq, o[1])
+                state = (qs, body, ct)
+                if d == 'other':
+                    refused.add(state)
+                elif state in refused and o[1] != 'query' and not py_selects_urlencoded(ct):
+                    # the multipart branch of POST stores an empty forms dict BEFORE it raises, so a second
+                    # read of forms after a refused multipart body returns {} (C07/C12 territory, reported);
+                    # what C18 observes here is only that the urlencoded parser was not selected
+                    d, obj = 'other', None
+                if obj is not None and k == 'copy':
+                    c = obj.copy()
+                    if type(c) is not type(obj) or c is obj:
+                        notes.append('copy() returned %s' % type(c).__name__)
+                    d = dump_dict(c)
+                    c['__added__'] = 'x'                      # the copy is independent of the cached view
+                    c.pop(next(iter(c)))
+                elif obj is not None and k == 'attr':
+                    v = getattr(obj, T(o[2]))
+                    d = [] if v is None else dump_dict({T(o[2]): v})
+                    try:
+                        getattr(obj, '__no_such_dunder__')
+                        notes.append('dunder attribute lookup did not raise')
+                    except AttributeError:
+                        pass
+                reads.append([k + ':' + o[1], d])
+                f = seq_request2(qs, body, ct)                # a request of its own carrying the current values
+                fd, fobj = view_dump(f, o[1])
+                if fobj is not None and k == 'attr':
+                    v = fobj.get(T(o[2]))
+                    fd = [] if v is None else dump_dict({T(o[2]): v})
+                fresh.append(fd)
+            elif k == 'set_qs':
+                if assign('QUERY_STRING', T(o[1])):
+                    qs = T(o[1])
+                if rq.query_string != qs:
+                    notes.append('query_string is %r, the request carries %r' % (rq.query_string, qs))
+            elif k == 'del_qs':
+                if assign('QUERY_STRING', None, delete=True):
+                    qs = ''
+                if rq.query_string != qs:
+                    notes.append('query_string is %r after del' % rq.query_string)
+            elif k == 'set_body':
+                new = bytes(o[1])
                 if o[3]:
-                    rq['CONTENT_LENGTH'] = str(len(body))
-                    rq['wsgi.input'] = io.BytesIO(body)
+                    ok = assign('CONTENT_LENGTH', str(len(new))) and assign('wsgi.input', io.BytesIO(new))
                 else:
-                    rq['wsgi.input'] = io.BytesIO(body)
-                    rq['CONTENT_LENGTH'] = str(len(body))
+                    ok = assign('wsgi.input', io.BytesIO(new)) and assign('CONTENT_LENGTH', str(len(new)))
+                if ok:
+                    body = new
+            elif k == 'set_ctype':
+                if assign('CONTENT_TYPE', T(o[1])):
+                    ct = T(o[1])
+            elif k == 'set_other':
+                assign(o[1], o[2])
     except Exception as e:
-        return dict(status='raised', exc=type(e).__name__)
-    return dict(status='ok', reads=reads, fresh=fresh, raw=raw)
+        return dict(status='raised', exc=type(e).__name__, msg=str(e)[:80])
+    return dict(status='ok', reads=reads, fresh=fresh, raw=raw, notes=notes)
 
 
 def run_seq(case):
@@ -630,7 +769,93 @@ def project(obs, case):
     return obs
 
 
+# --------------------------------------------------------------------------
+# dev-only: line coverage of the anchored functions   (VERIF_COVERAGE=1 ./check C18 --no-coq)
+# --------------------------------------------------------------------------
+
+COVER_TARGETS = {
+    'ombott/request_pkg/helpers.py': ['parse_qsl', 'FormsDict.copy', 'FormsDict.__getattr__', 'cache_in'],
+    'ombott/request_pkg/body_mixin.py': ['BodyMixin.query', 'BodyMixin.POST', 'BodyMixin.forms',
+                                         'BodyMixin._get_body_string', 'BodyMixin.content_length',
+                                         'BodyMixin.content_type'],
+    'ombott/request_pkg/props_mixin.py': ['PropsMixin.params', 'PropsMixin.query_string'],
+    'ombott/request_pkg/request.py': ['BaseRequest.__setitem__', 'BaseRequest.__delitem__',
+                                      'BaseRequest._on_env_changed'],
+}
+_COV = None
+
+
+def _cov_setup():
+    """-> dict(codes={code object: (file, qualname)}, lines={(file, line)}, hit=set())"""
+    import os
+    import ombott
+    root = os.path.dirname(os.path.dirname(os.path.abspath(ombott.__file__)))
+    cov = dict(codes={}, lines={}, hit=set(), root=root)
+
+    def walk(code, rel, names):
+        q = code.co_qualname
+        if any(q == n or q.startswith(n + '.<locals>.') for n in names):
+            cov['codes'][(code.co_filename, code.co_firstlineno, code.co_name)] = (rel, q)
+            for _, _, ln in code.co_lines():
+                if ln is not None and ln != code.co_firstlineno:
+                    cov['lines'][(rel, ln)] = q
+        for c in code.co_consts:
+            if hasattr(c, 'co_code'):
+                walk(c, rel, names)
+    for rel, names in COVER_TARGETS.items():
+        path = os.path.join(root, rel)
+        with open(path) as f:
+            walk(compile(f.read(), path, 'exec'), rel, names)
+    return cov
+
+
+def _cov_tracer(frame, event, arg):
+    code = frame.f_code
+    k = (code.co_filename, code.co_firstlineno, code.co_name)
+    info = _COV['codes'].get(k)
+    if info is None:
+        return None
+    rel = info[0]
+
+    def local(fr, ev, a):
+        if ev == 'line':
+            _COV['hit'].add((rel, fr.f_lineno))
+        return local
+    return local
+
+
+def _cov_report():
+    import json
+    import os
+    import sys
+    lines, hit = _COV['lines'], _COV['hit'] & set(_COV['lines'])
+    missed = sorted(set(lines) - hit)
+    out = dict(total=len(lines), reached=len(hit), missed=[[f, ln, lines[(f, ln)]] for f, ln in missed])
+    path = os.environ.get('VERIF_COVERAGE_OUT', '/tmp/C18_coverage.json')
+    with open(path, 'w') as f:
+        json.dump(out, f, indent=1)
+    print('C18 coverage of anchored functions: %d/%d lines reached; unreached: %s (details: %s)'
+          % (len(hit), len(lines), ['%s:%d' % (f.split('/')[-1], ln) for f, ln in missed], path), file=sys.stderr)
+
+
 def run_impl(case):
+    import os
+    if os.environ.get('VERIF_COVERAGE') == '1':
+        global _COV
+        import sys
+        if _COV is None:
+            import atexit
+            _COV = _cov_setup()
+            atexit.register(_cov_report)
+        sys.settrace(_cov_tracer)
+        try:
+            return run_impl_inner(case)
+        finally:
+            sys.settrace(None)
+    return run_impl_inner(case)
+
+
+def run_impl_inner(case):
     if case['kind'] == 'prim':
         return run_prim(case['op'], case['arg'])
     if case['kind'] == 'seq':
@@ -673,12 +898,25 @@ def encode(case):
         qs, body = seq_strings(case)
 
         def enc_op(o):
-            if o[0] == 'read':
+            k = o[0]
+            if k == 'read':
                 return [0, KIND_CODE[o[1]]]
-            if o[0] == 'read_body':
+            if k == 'read_body':
                 return [3, o[1]]
-            return [1 if o[0] == 'set_qs' else 2] + enc_str(o[1])
-        return [6] + enc_str(S(qs)) + enc_str(body) + enc_list(case['ops'], enc_op)
+            if k == 'copy':
+                return [4, KIND_CODE[o[1]]]
+            if k == 'attr':
+                return [5, KIND_CODE[o[1]]] + enc_str(o[2])
+            if k == 'del_qs':
+                return [6]
+            if k == 'set_ctype':
+                return [7] + enc_str(o[1])
+            if k == 'set_other':
+                return [8]
+            return [1 if k == 'set_qs' else 2] + enc_str(o[1])
+        ct = case.get('ct', 'application/x-www-form-urlencoded')
+        return ([6, 1 if case.get('ro') else 0] + enc_str(S(qs)) + enc_str(body) + enc_str(S(ct or ''))
+                + enc_list(case['ops'], enc_op))
     if case['kind'] == 'seq':
         qs, body = seq_strings(case)
         return [4] + enc_str(S(qs)) + enc_str(body) + enc_list(case['order'], lambda a: [KIND_CODE[a]])
@@ -711,8 +949,9 @@ def decode(out, case):
     if case['kind'] == 'seq':
         def one(q):
             tag = q.int()
-            return q.list(item) if tag == 0 else 'model_tag_%d' % tag
-        names = [o[1] for o in case['ops'] if o[0] == 'read'] if 'ops' in case else case['order']
+            return q.list(item) if tag == 0 else 'other' if tag == 5 else 'model_tag_%d' % tag
+        names = [o[0] + ':' + o[1] for o in case['ops'] if o[0] in ('read', 'copy', 'attr')] if 'ops' in case \
+            else case['order']
         return dict(status='ok', reads=[[a, d] for a, d in zip(names, r.list(one))])
     tag = r.int()
     if tag != 0:
@@ -838,32 +1077,50 @@ def oracle_frame(case, obs):
 
 def oracle_seq_ops(case, obs):
     qp, bp = case.get('qpairs'), case.get('bpairs')       # the pairs the request carries at this moment (None: raw)
+    ct, ro = case.get('ct', 'application/x-www-form-urlencoded'), bool(case.get('ro'))
     n = 0
     history = []
     for got, want in obs.get('raw', []):
         if got != want:
             return 'request.body.read returned %d bytes, expected %d (the body the request carries)' % (len(got), len(want))
+    for note in obs.get('notes', []):
+        if note != 'keyerror':
+            return note
+    setters = sum(1 for o in case['ops'] if o[0] in ('set_qs', 'del_qs', 'set_body', 'set_ctype', 'set_other'))
+    if ro and obs.get('notes', []).count('keyerror') != setters:
+        return 'read-only environ: %d of %d assignments raised KeyError' % (obs['notes'].count('keyerror'), setters)
     for o in case['ops']:
-        if o[0] == 'read_body':
+        k = o[0]
+        if k == 'read_body':
             history.append('body.read(%d)' % o[1])
-        elif o[0] == 'set_qs':
-            qp = o[2]
-            history.append('set_qs')
-        elif o[0] == 'set_body':
-            bp = o[2]
-            history.append('set_body')
+        elif k in ('set_qs', 'del_qs', 'set_body', 'set_ctype', 'set_other'):
+            history.append(k)
+            if ro:
+                continue
+            if k == 'set_qs':
+                qp = o[2]
+            elif k == 'del_qs':
+                qp = [] if qp is not None else None
+            elif k == 'set_body':
+                bp = o[2]
+            elif k == 'set_ctype':
+                ct = T(o[1])
         else:
-            a, got = obs['reads'][n]
+            a = o[1]
+            got = obs['reads'][n][1]
             want = obs['fresh'][n]
             if qp is not None and bp is not None:
-                q = [(T(k), T(v)) for k, v in qp]
-                b = [(T(k), T(v)) for k, v in bp]
-                if all(k for k, _ in q + b):
+                q = [(T(x), T(y)) for x, y in qp]
+                b = [(T(x), T(y)) for x, y in bp]
+                if all(x for x, _ in q + b) and (a == 'query' or ct in CT_URLENC):
                     want = group(q) if a == 'query' else group(b) if a == 'forms' else merge(group(q), group(b))
+                    if k == 'attr':
+                        want = [it for it in want if it[0] == o[2]]
             if got != want:
-                return ('read #%d (%s) after %s returned %s, expected %s: the read does not decode what the '
-                        'request carries at that moment' % (n + 1, a, '/'.join(history) or 'nothing', short(got),
-                                                            short(want)))
+                return ('%s #%d (%s) after %s returned %s, expected %s: the read does not decode what the '
+                        'request carries at that moment' % (k, n + 1, a, '/'.join(history) or 'nothing',
+                                                            short(got) if got != 'other' else got,
+                                                            short(want) if want != 'other' else want))
             n += 1
             history.append(a)
     return None
@@ -902,7 +1159,7 @@ def nontrivial(case, obs):
     if case['kind'] == 'frame':
         return len(case['text']) >= 2 and (bool(case['sched']) or case['chunked'])
     if case['kind'] == 'seq' and 'ops' in case:
-        kinds = [o[0] for o in case['ops']]
+        kinds = ['read' if o[0] in ('read', 'copy', 'attr') else o[0] for o in case['ops']]
         first_set = min([i for i, k in enumerate(kinds) if k != 'read'], default=None)
         return first_set is not None and 'read' in kinds[first_set:] and \
             ('read' in kinds[:first_set] or kinds[first_set] == 'read_body')
@@ -939,8 +1196,11 @@ def classify(case, obs):
                 else 'disjoint'
         if 'ops' in case:
             ks = {o[0] for o in case['ops']}
-            return 'seq-ops/%s/%s/%s' % ('pairs' if 'qpairs' in case else 'raw',
-                                         '+'.join(sorted(ks - {'read'})) or 'reads-only', obs.get('status'))
+            ct = case.get('ct', 'application/x-www-form-urlencoded')
+            return 'seq-ops/%s/%s%s/%s/%s' % ('pairs' if 'qpairs' in case else 'raw',
+                                              'ct-missing' if ct is None else 'ct-other' if ct in CT_OTHER else 'ct-urlenc',
+                                              '/read-only' if case.get('ro') else '',
+                                              '+'.join(sorted(ks - {'read'})) or 'reads-only', obs.get('status'))
         return 'seq/%s/%s/%s' % ('pairs' if 'qpairs' in case else 'raw', shared, obs.get('status'))
     q = case['qs']
     return 'raw/%s/%s/%s' % (case['via'], 'pct' if 37 in q else 'nopct', obs.get('status'))
